@@ -43,7 +43,7 @@ func textCase(t *testing.T, text string, want *query.Query) {
 	}
 }
 
-func leafS(key, val string) query.Condition { return query.Where(key, query.SameAs, val) }
+func leafS(key, val string) query.Condition   { return query.Where(key, query.SameAs, val) }
 func leafI(key string, v int) query.Condition { return query.Where(key, query.Equals, v) }
 
 // ---------------------------------------------------------------- regressions of fixed findings
